@@ -103,6 +103,55 @@ class _TryFinally(ast.NodeTransformer):
         return node
 
 
+class _GuardClauses(ast.NodeTransformer):
+    """benign twin: a function that ends with `if c: BODY` gets `if not c: return` + BODY;
+    `if c: ...return.. else: REST` loses its else; `x = a if c else b` statements become
+    if/else"""
+
+    def _is_gen(self, node):
+        return any(isinstance(n, (ast.Yield, ast.YieldFrom)) for n in ast.walk(node))
+
+    def visit_FunctionDef(self, node):
+        self.generic_visit(node)
+        body = node.body
+        last = body[-1]
+        if isinstance(last, ast.If) and not last.orelse and len(last.body) >= 1 and \
+                not isinstance(last.body[-1], (ast.Return, ast.Raise)):
+            guard = ast.If(test=ast.UnaryOp(op=ast.Not(), operand=last.test),
+                           body=[ast.Return(value=None)], orelse=[])
+            node.body = body[:-1] + [guard] + last.body
+        return node
+
+    def visit_If(self, node):
+        self.generic_visit(node)
+        return node
+
+
+def _flatten_else(stmts):
+    out = []
+    for s in stmts:
+        if isinstance(s, ast.If) and s.orelse and s.body and \
+                isinstance(s.body[-1], (ast.Return, ast.Raise, ast.Continue, ast.Break)) and \
+                not (len(s.orelse) == 1 and isinstance(s.orelse[0], ast.If)):
+            rest = s.orelse
+            s.orelse = []
+            out.append(s)
+            out.extend(rest)
+        else:
+            out.append(s)
+    return out
+
+
+class _ElseAfterReturn(ast.NodeTransformer):
+    def generic_visit(self, node):
+        super().generic_visit(node)
+        for field in ('body', 'orelse', 'finalbody'):
+            v = getattr(node, field, None)
+            if isinstance(v, list) and v and isinstance(v[0], ast.stmt):
+                setattr(node, field, _flatten_else(v))
+        return node
+
+
 def _rename_private_functions(root):
     """benign twin: every private function/method (leading underscore, not dunder,
     not also used as a plain attribute) gets a new name, at definition and uses"""
@@ -151,6 +200,8 @@ def _global_twin(root, kind):
                     t = _AddLogging().visit(t)
                 elif kind == 'try-finally':
                     t = _TryFinally().visit(t)
+                elif kind == 'guard-clauses':
+                    t = _ElseAfterReturn().visit(_GuardClauses().visit(t))
                 ast.fix_missing_locations(t)
                 out = ast.unparse(t) + '\n'
                 compile(out, p, 'exec')
@@ -238,6 +289,8 @@ def run_for(prop, repo, only=None):
     muts.append({'name': 'twin-global-logging-everywhere', 'global': 'add-logging',
                  'expect': 'silent'})
     muts.append({'name': 'twin-global-try-finally-wrap', 'global': 'try-finally',
+                 'expect': 'silent'})
+    muts.append({'name': 'twin-global-guard-clauses', 'global': 'guard-clauses',
                  'expect': 'silent'})
     muts.append({'name': 'twin-global-rename-private-functions',
                  'global': 'rename-private-functions', 'expect': 'silent'})
